@@ -60,9 +60,16 @@ func DrawConfig(rt *rapid.T, p *Profile) Config {
 			o.Name = controller.DefaultNodeGroup
 		}
 		// thresholds 0 < L < U < S
-		L := rapid.SampledFrom([]int{1, 5, 10, 20, 30, 40}).Draw(rt, "lower")
-		U := L + rapid.SampledFrom([]int{1, 5, 10, 20, 30}).Draw(rt, "upperGap")
-		S := U + rapid.SampledFrom([]int{1, 5, 10, 20, 30, 50, 80}).Draw(rt, "scaleUpGap")
+		var L, U, S int
+		if rapid.Bool().Draw(rt, "niceThresholds") {
+			L = rapid.SampledFrom([]int{1, 5, 10, 20, 30, 40}).Draw(rt, "lower")
+			U = L + rapid.SampledFrom([]int{1, 5, 10, 20, 30}).Draw(rt, "upperGap")
+			S = U + rapid.SampledFrom([]int{1, 5, 10, 20, 30, 50, 80}).Draw(rt, "scaleUpGap")
+		} else {
+			L = rapid.IntRange(1, 60).Draw(rt, "lower")
+			U = L + rapid.IntRange(1, 40).Draw(rt, "upperGap")
+			S = U + rapid.IntRange(1, 80).Draw(rt, "scaleUpGap")
+		}
 		o.TaintLowerCapacityThresholdPercent, o.TaintUpperCapacityThresholdPercent, o.ScaleUpThresholdPercent = L, U, S
 		o.SlowNodeRemovalRate = rapid.IntRange(0, 4).Draw(rt, "slow")
 		o.FastNodeRemovalRate = o.SlowNodeRemovalRate + rapid.IntRange(0, 6).Draw(rt, "fastGap")
